@@ -29,7 +29,7 @@ SPEC = dict(
     props_module="Refinery.Props.C18",
     gen_module="Refinery.Gen.Peers",
     quick=dict(cases=320, len=60, shards=4),
-    thorough=dict(cases=24000, len=80, shards=16),
+    thorough=dict(cases=48000, len=80, shards=16),
     nontrivial=nontrivial,
     rule="cases = (85%) timed cluster histories on 2-5 real RedisPubsubPeers in one process: node start, refresh ticks of the real "
          "Ready() goroutine (hand-fired ticker), graceful stop (real stop()), crash, restarts under a new instance id, every published "
